@@ -283,7 +283,8 @@ def c14(ctx):
             raise tlc.TLCError("Upgrade design violates %s" % r.violated)
         ctx.add_model(r, "unix=%s" % unix)
     for dev, inv in (("AlwaysUnlink", "SocketFileUsable"), ("NoReexecReset", "RollbackRestores"),
-                     ("HupKeepsScale", "ServesUnlessWinched"), ("ChildBootFailureHaltsParent", "DiesOnlyWhenToldTo")):
+                     ("HupKeepsScale", "ServesUnlessWinched"), ("ChildBootFailureHaltsParent", "DiesOnlyWhenToldTo"),
+                     ("HupForgetsUpgrade", "SocketFileUsable"), ("NoRespawnWhilePending", "ServesUnlessWinched")):
         rr = tlc.run("Upgrade", up_cfg("dev_" + dev, True, nsig=5, dev=[dev]), name="Upgrade_dev_" + dev, workers=4, timeout=300)
         ctx.coverage.setdefault("deviation_runs", []).append({"dev": dev, "expected": inv, "reproduced": inv in rr.violated})
     ctx.coverage["exhaustive"] = True
